@@ -28,11 +28,13 @@ META = {
     "level_note": "The order of the dimensions of a torus, the choice among parallel cables and among equivalent parents of a fat tree, and the green/black order "
                   "inside a dragonfly group are left free (the documentation does not fix them). The position of limiter links inside the list is not judged, only "
                   "their multiset. Dragonflies with more groups than routers per group are not generated (the documented 'nth router of the group' does not exist). "
-                  "Link bandwidths (cable multiplicities) are not observed.",
+                  "Link bandwidths (cable multiplicities) are not observed. Dragonfly pairs whose documented route uses a group router outside chassis 0 (open "
+                  "finding: out-of-bounds read) are asked last through a query that survives SIGSEGV/SIGABRT (at most 40 per shape, 3 under ASan). The decoding of "
+                  "fat-tree switch ids and of the group of a green dragonfly cable follows the order in which SimGrid numbers them (their names do not spell it).",
     "rule": "case = one shape (topology parameters x loopback x limiter x sharing policy x API/XML); non-trivial = distinct shapes with >= 2 nodes fully answered and checked",
     "assumptions": ["node numbering of clusters: rank = mixed radix of the coordinates, first coordinate fastest for torus, (group, chassis, blade, node) slowest-to-fastest for dragonfly",
                     "generated link names spell the endpoints of the cable they model (documented naming of cluster links)"],
-    "ready": False,
+    "ready": True,
 }
 
 LOOP_LAT = 0.0005      # harness/route_dump2.cpp: latency of API loopback links
